@@ -4,5 +4,7 @@ EXTENDS MC_Descent
 ASSUME T8aF(0)
 ASSUME T8a_smallF(0)
 ASSUME CountsF(0)
+ASSUME T8eF(0)
+ASSUME T8e_smallF(0)
 MCGraphs == {GraphOf(Z)}
 ======================================================================
